@@ -50,7 +50,7 @@ StartRun(s, e) ==
                 allc |-> (e.dflt = "c" /\ AllOnes(e.script) /\ e.etype = "rec"), isref |-> isref,
                 cmp |-> (~isref /\ e.etype = "rec" /\ ~e.inp.perm), perm |-> (~isref /\ e.inp.perm /\ e.etype = "rec"),
                 deep |-> e.deep, src |-> e.src]
-    IN [s EXCEPT !.stack = <<>>, !.cur = cur, !.made = {}, !.reps = <<>>, !.phase = "idle", !.runbad = FALSE,
+    IN [s EXCEPT !.stack = <<>>, !.cur = cur, !.made = {}, !.reps = <<>>, !.phase = "idle", !.runbad = e.deep,      \* deep nests are not spelled out in the trace: only totality is judged
                  !.refev = IF isref THEN <<>> ELSE @, !.pos = 0, !.diverged = FALSE,
                  !.refok = IF isref THEN TRUE ELSE @,
                  !.ref1 = IF isref THEN [has |-> FALSE, mj |-> "", mq |-> ""] ELSE @,
@@ -180,6 +180,9 @@ SetAsSeq(S) == LET RECURSIVE f(_) f(T) == IF T = {} THEN <<>> ELSE LET x == CHOO
 ExitProps(N) == CASE N.c = "scalar" -> {"C05"} [] N.c = "struct" -> {"C07", "C08"} [] N.c \in {"enum", "uenum"} -> {"C10", "C07", "C08"}
                   [] N.c = "jvalue" -> {"C13"} [] OTHER -> {"C06"}
 
+\* losing or duplicating a report in a keep-going run also breaks "the final error holds exactly one report per fault"
+KeepGoing(s) == IF s.cur.allc THEN {"C02"} ELSE {}
+
 OnExit(s, e) ==
     IF s.phase # "running" \/ Len(s.stack) = 0 THEN Flag(s, {"CONF"}, "exit outside a running call")
     ELSE
@@ -194,21 +197,25 @@ OnExit(s, e) ==
     IN IF e.n # F.n THEN Flag(s, {"CONF"}, "exit of a node that is not on top of the stack")
        ELSE IF F.ph = "jbad" THEN
             IF e.ok THEN Flag(s, {"C13", "C01"}, "a non-representable float is accepted into a JSON document")
-            ELSE IF bagok THEN s1 ELSE Flag(s, {"C01"}, "the returned error is not made of exactly the reports made since the call was entered")
+            ELSE IF bagok THEN s1 ELSE Flag(s, {"C01"} \cup KeepGoing(s), "the returned error is not made of exactly the reports made since the call was entered")
        ELSE IF e.ok THEN
-            IF F.since # {} THEN Flag(s, {"C01"} \cup (IF IsMapTarget(N) THEN {"C06"} ELSE {}), "Ok is returned although a report was made inside")
+            IF F.since # {} THEN Flag(s, {"C01"} \cup KeepGoing(s) \cup (IF IsMapTarget(N) THEN {"C06"} ELSE {}), "Ok is returned although a report was made inside")
             ELSE IF \E c \in cands : c.ok THEN
                  IF ValueAgrees(F, e.val) THEN Seen(s1, {"C01", "C06"} \cup ExitProps(N))
                  ELSE Flag(s, ExitProps(N), "the value returned is not the one the payload prescribes")
             ELSE IF F.ph = "bad" THEN Flag(s, ExitProps(N) \cup {"C04"}, "Ok is returned for a value the target cannot accept, without any report")
             ELSE Flag(s, {"C02", "C06"}, "Ok is returned before every element / member / field was examined")
        ELSE \* error exit
-            IF ~bagok THEN Flag(s, {"C01"}, "the returned error is not made of exactly the reports made since the call was entered")
+            IF ~bagok THEN Flag(s, {"C01"} \cup KeepGoing(s), "the returned error is not made of exactly the reports made since the call was entered")
             ELSE IF \E c \in cands : ~c.ok THEN Seen(s1, {"C01", "C02", "C03"})
             ELSE IF F.ph = "merge" /\ F.pend = {} THEN s1          \* a child's error passed on without a hand-over call: nothing is lost
             ELSE IF F.ph \in {"leafok"} \/ (F.ph = "work" /\ ~F.fail /\ F.pend = {}) THEN
                  Flag(s, ExitProps(N) \cup {"C01"}, "an error is returned for a payload without any fault")
             ELSE Flag(s, {"C02"}, "the container returns before every element / member / field was examined although no stop was answered")
+
+\* reports compared across permutations of the same payload: the quoted `actual` value itself contains the members
+\* in the presented order, so it is left out (kind, location, subject and accepted lists are compared)
+NoAct(reps) == [j \in 1..Len(reps) |-> [reps[j] EXCEPT !.act = NullV]]
 
 OnDone(s, e) ==
     IF s.cur.etype # "rec" THEN
@@ -235,7 +242,7 @@ OnDone(s, e) ==
         s3 == IF s2.runbad THEN s2
               ELSE IF s.cur.isref THEN [s2 EXCEPT !.refdone = [has |-> TRUE, ok |-> e.ok, val |-> e.val, reps |-> s.reps]]
               ELSE IF s.cur.perm /\ s.refok /\ s.refdone.has THEN
-                   (IF e.ok = s.refdone.ok /\ (e.ok => e.val = s.refdone.val) /\ (s.cur.allc => SameBag(s.reps, s.refdone.reps))
+                   (IF e.ok = s.refdone.ok /\ (e.ok => e.val = s.refdone.val) /\ (s.cur.allc => SameBag(NoAct(s.reps), NoAct(s.refdone.reps)))
                     THEN Seen([s2 EXCEPT !.nperm = @ + 1], {"C15"})
                     ELSE Flag(s2, {"C15"}, "permuting object members changes the value or the set of reports"))
               ELSE s2
@@ -243,7 +250,7 @@ OnDone(s, e) ==
 
 Step(s, e) ==
     CASE e.e \in {"reset", "run"} -> StartRun(s, e)
-      [] e.e = "panic" -> IF s.runbad THEN s ELSE Flag(s, {"C12"}, "deserialize panicked")
+      [] e.e = "panic" -> IF s.runbad /\ ~s.cur.deep THEN s ELSE Flag(s, {"C12"}, "deserialize panicked")
       [] s.runbad -> s
       [] e.e = "enter" -> (IF s.cur.etype = "rec" THEN OnEnter(PrefixStep(s, e), e) ELSE s)
       [] e.e = "err"   -> (LET p == PrefixStep(s, e) IN IF p.runbad THEN p ELSE OnErr(p, e))
